@@ -135,6 +135,9 @@ def _pop_flag_semantics(model: Model, rr: RuleResult):
         k = classify(e)
         if k:
             return k
+        if isinstance(e, ast.Call) and callee_tail(e) in ("pop", "get") and len(e.args) == 2 and isinstance(e.func, ast.Attribute) and norm(e.func.value) == fi.params[0]:
+            # pop / get with an explicit fallback: the file value when the key is present, else the fallback
+            return "C" if world["C"] != "none" else ev(e.args[1], env, world)
         if isinstance(e, ast.Constant):
             return ("const", e.value)
         if isinstance(e, ast.Compare) and len(e.ops) == 1 and isinstance(e.ops[0], (ast.Is, ast.IsNot)) and norm(e.comparators[0]) == "None":
@@ -643,3 +646,34 @@ def r10h(model: Model, rr: RuleResult):
                    f"an embedded quote or newline) come back changed, so a worker opens a different file name than the driver wrote", construct=f"csv_line: hand-joined row {short(joins[0], 40)}")
         else:
             rr.ok(f"csv_line: `{short(st, 60)}` comes from the csv writer's buffer")
+
+
+@RULES.rule("C10", "R10i", "codepoints are read from a file name by the one documented pattern; no character-set stripping of prefixes", floor=2)
+def r10i(model: Model, rr: RuleResult):
+    fi = model.func("codepoints", "from_filename")
+    from ..dataflow import fold_module_constants
+    pats = []
+    for c in calls_in(fi):
+        if callee_tail(c) in ("search", "match", "fullmatch", "compile", "finditer", "findall") and c.args:
+            a = fold_module_constants(c.args[0], fi)
+            if isinstance(a, ast.Constant) and isinstance(a.value, str):
+                pats.append((c, a.value))
+    mod = model.mod("codepoints")
+    for k, v in mod.assigns.items():
+        if isinstance(v, ast.Call) and callee_tail(v) == "compile" and v.args and isinstance(v.args[0], ast.Constant) and isinstance(v.args[0].value, str):
+            pats.append((v, v.args[0].value))
+    REF = r"(?:^emoji_u)?(?:[-_]?([0-9a-fA-F]{1,}))+"
+    if any(p == REF for _, p in pats):
+        rr.ok("from_filename: optional emoji_u prefix, then hex groups separated by - or _")
+    elif pats:
+        rr.bad_shape(fi, pats[0][0], f"from_filename matches {pats[0][1]!r}, not the documented pattern", construct="from_filename: pattern")
+    else:
+        rr.bad_shape(fi, fi.node, "from_filename: pattern not found", construct="from_filename: pattern")
+    strips = [c for f2 in mod.functions.values() for c in calls_in(f2) if callee_tail(c) in ("lstrip", "rstrip", "strip") and c.args
+              and isinstance(c.args[0], ast.Constant) and isinstance(c.args[0].value, str) and len(set(c.args[0].value)) > 1]
+    if strips:
+        c = strips[0]
+        rr.bad(fi, c, f"{short(c)} removes any run of the CHARACTERS {sorted(set(c.args[0].value))}, not the prefix {c.args[0].value!r}: a file name whose first hex digit is one of "
+               f"them (emoji_ue50a.svg, ea.svg) loses it and is decoded as another codepoint", construct=f"codepoints: {short(c)}")
+    else:
+        rr.ok("no str.strip/lstrip/rstrip with a multi-character set in codepoints.py")
